@@ -188,6 +188,10 @@ from . import casts
 
 from . import removals
 
+from . import mustcall
+
+from . import wiring
+
 OBLIGATIONS = [
     ('C13.O1', 'builder boundary', 'start_synctest_session builds a session exactly under check_dist < max_prediction & !sparse_saving, InvalidRequest otherwise.', o1),
     ('C13.O2', 'compare, then roll back, every call', 'under exactly check_distance > 0 & current > check_distance the comparison over [current - cd, current] precedes '
@@ -200,4 +204,6 @@ OBLIGATIONS = [
     ('C13.I', 'initial state', 'every constructor gives the fields this property\'s rules interpret (NULL_FRAME = none / nothing yet, 0 = first frame, latches open, typestate start) the value listed in tables/initial_state.json; every field compared with NULL_FRAME anywhere is listed; see rules/initial.py', initial.rule_for('C13')),
     ('C13.C', 'lossy integer casts', 'every sign-changing cast (signed -> unsigned; NULL_FRAME is -1) and every narrowing cast to < 32 bits or from 128 bits in the crate is in range by a dominating guard, by the shape of its operand, or listed with a reason in tables/casts.json; see rules/casts.py', casts.rule),
     ('C13.R', 'who may remove', 'every call that takes elements out of a collection this property\'s rules rely on (keyed removal from a map, or bulk / positional removal) is one of the reviewed sites in tables/removals.json; a lookup turned into a removal, a second prune, a clear on another path is reported; see rules/removals.py', removals.rule_for('C13')),
+    ('C13.M', 'must-call floor', 'the calls listed for this property in tables/must_call.json are made on every path from the entry of their function to a normal return (interprocedural must-call): a new early return, fast path or extra condition in front of one of them is reported; see rules/mustcall.py', mustcall.rule_for('C13')),
+    ('C13.W', 'configuration wiring', 'the SyncTestSession gets the configuration the builder holds: no crossed wires, collections forwarded whole, setters order-independent, and no constructor combines two different configuration values into one (input delay, check distance and prediction window reach the sync layer as configured); see rules/wiring.py', wiring.rule),
 ]
